@@ -81,6 +81,16 @@ pub fn damage(r: &Rendering) -> Vec<Damaged> {
             let mut s = t.clone();
             s.replace_range(*start..*start + ind as usize, &" ".repeat(c as usize));
             out.push(Damaged { op: 4, variant: "entry-between-levels", site: *start, text: s });
+            // the same with a tab (and the rest of the old width) after the shortened indentation:
+            // the tab is no indentation, the entry still sits between two levels
+            let mut s = t.clone();
+            s.replace_range(*start..*start + ind as usize, &format!("{}\t", " ".repeat(c as usize)));
+            out.push(Damaged { op: 4, variant: "entry-between-levels then tab", site: *start, text: s });
+            if m - c > 1 {
+                let mut s = t.clone();
+                s.replace_range(*start..*start + ind as usize, &format!("{}\t{}", " ".repeat(c as usize), " ".repeat((m - c - 1) as usize)));
+                out.push(Damaged { op: 4, variant: "entry-between-levels then tab and spaces", site: *start, text: s });
+            }
         }
     }
     // 5. a flow continuation line that begins with an entry, moved to the enclosing block's column or left of it
@@ -183,11 +193,27 @@ pub fn damage(r: &Rendering) -> Vec<Damaged> {
     // 12. repeated %YAML directive; 13. directives without '---'
     if let Some(rest) = t.strip_prefix("%YAML 1.2\n---") {
         out.push(Damaged { op: 12, variant: "duplicate-yaml-directive", site: 0, text: format!("%YAML 1.2\n{t}") });
+        // ... with another version number, with a comment, and with another directive in between
+        out.push(Damaged { op: 12, variant: "duplicate-yaml-directive other-version", site: 0, text: format!("%YAML 1.1\n{t}") });
+        out.push(Damaged { op: 12, variant: "duplicate-yaml-directive commented", site: 0, text: format!("%YAML 1.2 # c\n{t}") });
+        out.push(Damaged { op: 12, variant: "duplicate-yaml-directive separated", site: 0, text: format!("%YAML 1.2\n%TAG !e! tag:e,\n{t}") });
+        out.push(Damaged { op: 12, variant: "duplicate-yaml-directive separated-by-reserved", site: 0, text: format!("%YAML 1.1\n%FOO bar\n{t}") });
         let rest = rest.strip_prefix(' ').or_else(|| rest.strip_prefix('\n')).unwrap_or(rest);
         if !rest.starts_with("---") && !rest.trim_start().is_empty()
         {
             out.push(Damaged { op: 13, variant: "directive-without-document-start", site: 0, text: format!("%YAML 1.2\n{rest}") });
         }
+    }
+    // 12b. two %TAG directives for the same handle in one document
+    if t.starts_with("---") {
+        out.push(Damaged { op: 12, variant: "duplicate-tag-directive", site: 0, text: format!("%TAG !e! tag:a,\n%TAG !e! tag:b,\n{t}") });
+        // ... with one or two other handles declared in between, in both sort orders
+        for (v, h) in [("b-a-b", ["!b!", "!a!", "!b!"]), ("a-b-a", ["!a!", "!b!", "!a!"]), ("secondary-primary-secondary", ["!!", "!", "!!"]), ("primary-named-primary", ["!", "!e!", "!"])] {
+            out.push(Damaged { op: 12, variant: "duplicate-tag-directive separated", site: 0, text: format!("%TAG {} tag:x,\n%TAG {} tag:y,\n%TAG {} tag:z,\n{t}", h[0], h[1], h[2]) });
+            let _ = v;
+        }
+        out.push(Damaged { op: 12, variant: "duplicate-tag-directive separated by two", site: 0, text: format!("%TAG !c! tag:x,\n%TAG !a! tag:y,\n%TAG !b! tag:y,\n%TAG !c! tag:z,\n{t}") });
+        out.push(Damaged { op: 12, variant: "duplicate-tag-directive secondary", site: 0, text: format!("%TAG !! tag:a,\n%YAML 1.2\n%TAG !! tag:a,\n{t}") });
     }
     // 13b. a reserved directive in front of a document that has no '---'
     if !t.starts_with('%') && !t.starts_with("---") && !t.starts_with('#') && !t.trim_start().is_empty() {
